@@ -99,6 +99,12 @@ func (f c11Flipper) String() string {
 
 func c11One(r *Run, snap *slog.VerifRegistry, ops []Op, kind string) {
 	t := NewTreeExec(snap)
+	// LsmartJSONMode is a flag of the package nothing in the statement depends on (the format is the logger's own
+	// three-state machine): every fourth case runs with it set, while loggers are made and while they print
+	if len(ops)%4 == 3 {
+		slog.AddFlags(slog.LsmartJSONMode)
+		defer slog.RemoveFlags(slog.LsmartJSONMode)
+	}
 	lvl0 := int(slog.GetLevel())
 	rets := t.RunOps(ops)
 	type ob struct {
